@@ -23,7 +23,9 @@ def main():
 
     def env(storage):
         return Environment(name="vp", base_dir=spec["root"], repos=[
-            ConfigurationRepository(name="r", clusters={"vp": FunctionCluster(name="vp", storage=storage)})])
+            ConfigurationRepository(name="r", clusters={"vp": FunctionCluster(name="vp", storage=storage),
+                                                        # a second cluster without functions (C13 locks it: nothing may freeze)
+                                                        "vq": FunctionCluster(name="vq", storage=NullStorageBackend())})])
 
     real_store = FilesystemStorageBackend(path=spec["store"]) if spec.get("store") else NullStorageBackend()
     m.Environment.set(env(real_store))
@@ -187,7 +189,7 @@ def main():
                 objs[act[1]] = MementoFunction(fn=base.fn, cluster_name="vp", version=base.explicit_version, register_fn=False)
                 out.append("ok")
             elif k == "lock":
-                m.Environment.get().get_cluster("vp").locked = bool(act[1])
+                m.Environment.get().get_cluster(act[2] if len(act) > 2 else "vp").locked = bool(act[1])
                 out.append("ok")
             else:
                 out.append("bad-action")
